@@ -11,18 +11,27 @@ P = {
                   'nothing): over all histories each (account, nonce) executes at most once, also within one transaction; a transaction containing a '
                   'duplicated, replayed, stale or out-of-order message is rejected as a whole without effect; acceptance is characterised exactly '
                   '(nonce of message k = sequence at the start + earlier messages of the same sender) and in-order batches, senders interleaved, are '
-                  'accepted; the one-message transaction is the old machine; (3) *_partial: under explicit premises ECDSA '
+                  'accepted; the one-message transaction is the old machine; (2c) a signed Ethereum message executes ONLY through the Ethereum route: a Cosmos '
+                  'transaction that merely carries signed MsgEthereumTx (inside authz.MsgExec alone / behind plain messages / nested / beside other inner '
+                  'messages / wrapped by another signer, as a plain message of an ordinary or EIP-712-signed Cosmos transaction, inside a wrapper behind the '
+                  'Ethereum extension option) is a submission kind of its own (Wrapped) whose acceptance rule is never: over ALL histories mixing '
+                  'Ethereum-route and wrapped submissions no carried message -- executed before, not yet executed, future or used nonce -- is executed '
+                  'by a wrapped submission, which is rejected without effect, everything that executes was submitted on the Ethereum route at the '
+                  'account\'s current sequence, wrapped submissions are inert (deleting them changes nothing), and every (account, nonce) still executes '
+                  'at most once; (3) *_partial: under explicit premises ECDSA '
                   'unforgeability and Keccak collision resistance, a transaction executes on behalf of an account only if that account\'s key holder '
                   'signed exactly its content, chain id and current sequence -- hence single-field mutations and foreign-chain signatures do not. '
                   'The machine is compared on every run with the real ante handler (all routes, every single-field mutation, chain-id variants, '
                   'replays), with real DeliverTx block histories, and with multi-message Ethereum transactions (built with /repo\'s testutil/tx.PrepareEthTx) '
-                  'through the real ante handler and real DeliverTx, executions counted on the recipients\' balances',
+                  'through the real ante handler and real DeliverTx, executions counted on the recipients\' balances, and with histories in which already '
+                  'executed / fresh / future / used-nonce signed messages are carried by every kind of wrapper through the real ante handler and real DeliverTx',
     'level_note': 'partial: ECDSA (secp256k1 sign/recover/verify) and Keccak-256 are NOT modelled -- they enter the theorems as arbitrary functions '
                   'and the negative direction carries unforgeability / collision resistance as named premises; the correspondence run uses the real '
                   'ones and feeds the model what they answered (recovered sender; which sign doc a signature was made over). Cosmos / EIP-712 routes '
                   'are modelled at the level of the sign-doc tuple (chain id, account number, sequence, body): sign-bytes and typed-data construction '
                   '(SIGN_MODE_DIRECT, amino JSON, ethereum/eip712) are sampled, not modelled. Fees, funds, gas and message validity are an arbitrary '
-                  'boolean per submission. No axioms',
+                  'boolean per submission. The wrapped routes are modelled by their verdict only (never): RejectMessagesDecorator, AuthzLimiterDecorator and '
+                  'the type assertions of the Ethereum ante chain are compared with it on every run, not transcribed. No axioms',
     'technique': 'Coq proof (state-machine invariant over all histories; RLP injectivity) + differential correspondence against the real ante handler and DeliverTx',
     'drivers': [
         {'name': 'sigs', 'n': {'quick': 240, 'thorough': 5000}, 'batch': 1000, 'shrink_field': 'txs'},
@@ -31,7 +40,7 @@ P = {
                   'From HV Require Import TxCodec.EthTxModel Ante.SigModel.\nImport ListNotations.\nLocal Open Scope string_scope.',
     'lists': {'cases': {'type': 'list hist', 'check': 'mismatches_groups', 'shard': 40}},
     'search': {'rounds': 3, 'n': 600},
-    'rule': 'four cases in six: one signed transaction of one route (eth legacy / access-list / dynamic-fee, cosmos direct / amino, EIP-712 via '
+    'rule': 'seven cases in twelve: one signed transaction of one route (eth legacy / access-list / dynamic-fee, cosmos direct / amino, EIP-712 via '
             'Web3 extension / via the ethsecp256k1 key) on a real app through the real ante handler: every single-field mutation on its own branch of '
             'the state (eth: nonce, prices, gas, to, value, data, access list, chain id field or V, V/R/S tweaks, s-malleation, type change, ten '
             'envelope fields; cosmos: message, memo, fee, gas, timeout, signer-info sequence and key, signature bytes, extension fields), the same '
@@ -43,7 +52,19 @@ P = {
             'in-order batch of one sender 16%, two senders interleaved 12%, single 6%, the same signed tx twice 14%, same-nonce replacement pair 9%, '
             'gap / future nonce 8%, reversed 5%, a message executed earlier alone or beside a fresh one 12%, duplicate behind another sender 10%, '
             'recipient altered after signing (stranger unfunded / funded) 8%; a block boundary in half of them; every signed message pays a private '
-            'recipient, so executions are counted on balances. Non-trivial = at least one acceptance and more than three submissions; distinct = distinct seeds',
+            'recipient, so executions are counted on balances. One case in twelve (kind wrapped, taken from the mutation cases, explicit script in the '
+            'input, same runner): a fresh chain, 2-3 senders, a first Ethereum-route transaction that executes, then 5-9 steps: Ethereum-route '
+            'transactions 24%, ordinary Cosmos transactions of the senders (their sequence moves on the Cosmos route) 8%, and 68% Cosmos transactions '
+            'that CARRY signed MsgEthereumTx -- a message executed earlier (the replay) 48%, not yet executed with the current nonce 22%, future nonce '
+            '12%, another transaction over a used nonce 8%, a replay beside a current one 10% -- placed among 0-2 plain inner MsgSend at any position, '
+            'as plain messages (depth 0, 18%) or inside 1 / 2 / 3 nested authz.MsgExec (47 / 20 / 15%), behind 0 / 1 / 2 / 3 plain MsgSend '
+            '(40 / 35 / 15 / 10%), followed by one more in 25%, signed by the message\'s own signer or (35%) by another account, half of those with a '
+            'generic authz grant for MsgEthereumTx stored directly in the keeper, signed SIGN_MODE_DIRECT 60%, amino-JSON 12%, EIP-712 via Web3 '
+            'extension 10% / via the ethsecp256k1 key 10% (where the sign mode cannot render the transaction: the route\'s envelope around a direct '
+            'signature), or unsigned behind the Ethereum extension option 8%; all through the real ante handler and real DeliverTx. Oracle for a '
+            'carrier: no carried message that was executed before, or whose nonce is not its signer\'s sequence at submission, is executed (private '
+            'recipient\'s balance), none twice, nobody but the carrier\'s own signer pays or loses a sequence number, a carrier the ante handler '
+            'refuses has no effect. Non-trivial = at least one acceptance and more than three submissions; distinct = distinct seeds',
     'trusted_base': [
         'Coq 8.16.1 kernel incl. vm_compute (no native_compute)',
         'axioms: none (Print Assumptions: closed under the global context for every theorem of Props/C03.v)',
@@ -55,6 +76,9 @@ P = {
         'checks are an arbitrary boolean (one per Cosmos transaction)',
         'multi-message cases: /repo testutil/tx.PrepareEthTx builds the Cosmos envelope; one execution of a signed message = its value arriving '
         'once at its private recipient address',
+        'wrapped cases: cosmos-sdk x/authz MsgExec / keeper.SaveGrant and /repo testutil/tx PrepareCosmosTx / CreateEIP712CosmosTx build and sign the '
+        'carriers; modelled by their verdict only: RejectMessagesDecorator, AuthzLimiterDecorator (disabled message types), the message type '
+        'assertions of the Ethereum ante decorators, authz keeper DispatchActions',
     ],
     'assumptions': [
         'ECDSA unforgeability and Keccak collision resistance (premises of the *_partial theorems only)',
